@@ -13,9 +13,16 @@ struct Config {
   int pct_depth = 2;       // number of priority change points
   int pct_horizon = 300;   // change points are drawn from [0, horizon)
   uint64_t max_steps = 20000;
+  // fault: one thread is stalled (descheduled) for stall_len scheduler steps, starting at the first
+  // yield at or after step stall_at that lies inside a critical section (tags 3/4) or, with
+  // stall_any, at any yield point. ~0 = no stall. If nothing else can run the stall ends early.
+  uint64_t stall_at = ~0ull;
+  uint64_t stall_len = 0;
+  int stall_any = 0;
 };
 struct Stats {
   uint64_t steps, trace_hash, spin_hits, lock_attempts, preempt_in_cs, switches;
+  uint64_t stalls, stalls_in_cs, stall_steps, stalls_cut_short, max_spin_run;
   bool step_bound_hit;
 };
 void configure(const Config& c);          // main thread, before workers start
